@@ -51,6 +51,7 @@ type StmtHint struct {
 	Where  string
 	File   string
 	Line   int
+	Text   string // alternative anchor: the statement's first source line starts with this text
 	Use    *SExpr
 	Assert *Clause
 	used   bool
@@ -427,17 +428,34 @@ func (cs *Contracts) parseItem(pkg string, it item, w, where string, pcurF **Fun
 			}
 			curF.SkipWhy = append(curF.SkipWhy, why)
 		case "stmt":
-			f := strings.SplitN(strings.TrimSpace(it.text), " ", 3)
+			txt := strings.TrimSpace(it.text)
+			var f []string
+			h := StmtHint{}
+			if i := strings.Index(txt, ":\""); i > 0 && !strings.Contains(txt[:i], " ") {
+				// stmt file.go:"first line of the statement" use ...   (robust against line shifts)
+				j := strings.Index(txt[i+2:], "\"")
+				if j < 0 {
+					panic(w + ": stmt: unterminated text anchor")
+				}
+				h.File = txt[:i]
+				h.Text = txt[i+2 : i+2+j]
+				h.Where = txt[:i+2+j+1]
+				f = append([]string{h.Where}, strings.SplitN(strings.TrimSpace(txt[i+2+j+1:]), " ", 2)...)
+			} else {
+				f = strings.SplitN(txt, " ", 3)
+			}
 			if len(f) < 3 || (f[1] != "use" && f[1] != "assert") {
 				panic(w + ": stmt file.go:LINE use L(args) | stmt file.go:LINE assert Label: expr")
 			}
-			h := StmtHint{Where: f[0]}
-			if i := strings.LastIndex(f[0], ":"); i > 0 {
-				h.File = f[0][:i]
-				fmt.Sscan(f[0][i+1:], &h.Line)
-			}
-			if h.Line == 0 {
-				panic(w + ": stmt needs file.go:LINE")
+			if h.Text == "" {
+				h.Where = f[0]
+				if i := strings.LastIndex(f[0], ":"); i > 0 {
+					h.File = f[0][:i]
+					fmt.Sscan(f[0][i+1:], &h.Line)
+				}
+				if h.Line == 0 {
+					panic(w + ": stmt needs file.go:LINE or file.go:\"text\"")
+				}
 			}
 			if f[1] == "use" {
 				h.Use = parseExprText(f[2], w)
